@@ -1110,9 +1110,10 @@ archive_read_format_rar_read_data(struct archive_read *a, const void **buff,
   *buff = NULL;
   if (rar->entry_eof || rar->offset_seek >= rar->unp_size) {
     *size = 0;
+    /* Where the data handed out ends (relative to the last seek): not
+     * unp_size, which is the link target's length for a symbolic link
+     * and is not relative to the last seek. */
     *offset = rar->offset;
-    if (*offset < rar->unp_size)
-      *offset = rar->unp_size;
     return (ARCHIVE_EOF);
   }
 
